@@ -44,9 +44,10 @@ WALL = {'quick': 45, 'thorough': 600}
 
 KEY_SCALE = 'C06:atoms_extend:scale-true'
 KEY_WIDTH = 'C06:extend:new-str-prop-width'
-# open finding (the defect C05 reports as C05:pos-integer-typed:truncated-on-write, met here through another route): Atoms(pos=<whole
-# numbers handed over integer-typed>) keeps an integer dtype; atoms_prop(value=<such Atoms>, scale=True) writes the unscaled
-# Cartesian positions back into that integer array before copying them over, so their fractional parts are lost
+# finding (fixed in /repo by 2a7c2bf; the defect C05 reported as C05:pos-integer-typed:truncated-on-write, met here through another
+# route): Atoms(pos=<whole numbers handed over integer-typed>) kept an integer dtype; atoms_prop(value=<such Atoms>, scale=True)
+# writes the unscaled Cartesian positions back into that array before copying them over, so their fractional parts were lost.
+# The key is kept: since it is no longer listed open, a recurrence is reported as an ordinary VIOLATION.
 KEY_INTPOS = 'C06:pos-integer-typed:truncated-on-write'
 NMAX = 40
 
@@ -989,7 +990,7 @@ class Run:
             last = {}
             for i, e in zip(sel, exp):
                 last[i] = e
-            intpos = value.view['pos'].dtype.kind in 'iu'       # input class of the open finding KEY_INTPOS
+            intpos = value.view['pos'].dtype.kind in 'iu'       # input class of the finding KEY_INTPOS
             try:
                 self.sync_float3('pos', list(last), [last[i] for i in last], what)
             except Violation as v:
